@@ -499,6 +499,10 @@ pub fn run_scenario(sc: &Scenario, plan: Option<Plan>, random: Option<u32>, dec:
     h = simk::dec::mix(&[h, plan.map_or(0, |p| u64::from(p.index) << 16 | p.errno as u64 | if p.side == Side::Child { 1 << 40 } else { 0 }), u64::from(result_ok), u64::from(low_fd_free)]);
     let events = sim.trace.events.take().unwrap_or_default();
     let rfv = random_fired.borrow().clone();
+    let mut h = h;
+    for (i, e) in &rfv {
+        h = simk::dec::mix(&[h, u64::from(*i), *e as u64]);
+    }
     let out = ScenOut { violation, trace, child_trace, fired, result_ok, events, hash: h, returned_in_child: sh.returned_in_child != 0, random_fired: rfv };
     let dec = std::mem::replace(&mut sim.dec, Dec::from_list(Vec::new()));
     (out, dec)
